@@ -65,8 +65,7 @@ def run(run, binfo):
         m = model_parse_answer(ma)
         i = impl_parse(v)
         if m != i:
-            bad_corr.append((v, m, i))
-            continue
+            bad_corr.append((v, m, i))      # and go on: the statement is checked on what the implementation did
         if i[0] != 'ok':
             continue
         printed = i[2]
@@ -116,6 +115,61 @@ def run(run, binfo):
                               {'kind': 'failing-input', 'suite': 'spec-c15', 'input': {'rules': rs},
                                'expected': p0, 'observed': p1})
     run.count('rule_sets', nsets)
+    # a rule set that changes after it was dumped: the next dump is that of the CURRENT contents
+    nhist = 150 if tier == 'quick' else 3000
+    for _ in range(nhist):
+        def some(k):
+            return {'n%d' % j: rng.choice(['', '@', '!', expr_text(rng, rng.randint(1, 6))])
+                    for j in rng.sample(range(6), k)}
+        first, second = some(rng.randint(0, 4)), some(rng.randint(1, 4))
+        how = rng.choice(['update', 'set_rules', 'setitem', 'pop', 'setdefault', 'clear+update', 'delitem'])
+        r = policy.Rules.from_dict(first, 'n0')
+        str(r)
+        want = dict(first)
+        parsed = policy.Rules.from_dict(second)
+        try:
+            if how == 'update':
+                r.update(parsed)
+                want.update(second)
+            elif how == 'set_rules':
+                e = enforcer()
+                e.set_rules(r, use_conf=False)
+                str(e.rules)
+                e.set_rules(parsed, overwrite=False, use_conf=False)
+                r = e.rules
+                want.update(second)
+            elif how == 'setitem':
+                for k, c in parsed.items():
+                    r[k] = c
+                want.update(second)
+            elif how == 'pop':
+                for k in list(second):
+                    dict.pop(r, k, None)
+                    want.pop(k, None)
+            elif how == 'delitem':
+                for k in list(second):
+                    if k in dict.keys(r):
+                        del r[k]
+                    want.pop(k, None)
+            elif how == 'setdefault':
+                for k, c in parsed.items():
+                    dict.setdefault(r, k, c)
+                    want.setdefault(k, second[k])
+            else:
+                r.clear()
+                r.update(parsed)
+                want = dict(second)
+            got = str(r)
+            ref = str(policy.Rules.from_dict(want, 'n0'))
+        except Exception as ex:   # noqa
+            got, ref = 'EXC ' + type(ex).__name__, 'a dump'
+        run.evaluations += 1
+        if got != ref:
+            run.violation('ruleset-dump-stale', 'after %s the dump of the rule set is %r, a fresh rule set with the same '
+                          'contents dumps as %r' % (how, got, ref),
+                          {'kind': 'failing-input', 'suite': 'spec-c15',
+                           'input': {'first': first, 'then': second, 'how': how}, 'expected': ref, 'observed': got})
+    run.count('rule_set_histories', nhist)
     # RuleDefault equality: equal (name, printed check)  =>  equal decisions
     npairs = 400 if tier == 'quick' else 10000
     for _ in range(npairs):
